@@ -11,6 +11,7 @@ from ..core import fingerprint
 from ..gen import cells
 from ..gen import c16_indices as GI
 from ..gen import c16_strings as GS
+from ..gen import c16_present as GP
 from ..oracle import geometry as G
 from ..oracle import c16_miller as M
 from .. import monitor, cover
@@ -22,10 +23,18 @@ REPOTESTS = True
 RULE = ('Integer index triples are ENUMERATED EXHAUSTIVELY in [-4,4]^3 minus 0 (728; thorough [-6,6]^3, 2196) and '
         'presented as (3,), (N,3) and (M,N,3) arrays (int arrays, float arrays, nested lists) to every function; '
         'cells round-robin over 12 kinds (7 families, strongly tilted, rotated triclinic, rotated hexagonal) x 3 '
-        'origin classes x 3 length scales; centring cases over the 8 settings x 3 shapes; reduce cases over 4 leading '
+        'origin classes x 8 length scales 1e-10..1e4 (every kind at every scale; each case repeats its cell shape at two further '
+        'scales); centring cases over the 8 settings x 3 shapes; reduce cases over 4 leading '
         'shapes x 3/4 terms x multiplied/plain; index strings over 34 classes (4 bracket styles x 4 fraction classes x '
         '3/4 terms + legacy bare form); family cases over the 7 family constructors x 3 scales with generic '
-        'parameters. A case is non-trivial when it evaluates the full enumerated set (cells/index/centring/reduce) '
+        'parameters. PRESENTATION cases round-robin over 18 element types / containers (int8..int64, uint8..uint64 with the '
+        'non-negative rows, float16/32/64, list, tuple, nested tuples, list of row arrays, lists of numpy int8/int16 scalars, '
+        'the array all_indices returns) x 3 magnitudes (the enumerated bound; |index| <= 11, on the thorough tier the whole '
+        '[-11,11]^3 cube for the plane normal; up to the largest value of the element type, capped at 2000 for the plane '
+        'normal and 2e9 otherwise) and inside a case run all 12 index-taking entry points x 5 leading shapes ((3,), (1,3), '
+        '(N,3), (M,N,3), (1,1,3)) with the memory layout rotating over C / Fortran / strided (first, last axis) / negative '
+        'strides / index axis slowest / read-only / byte-swapped; each result is compared with the int64 C-contiguous call '
+        'and with the oracle. A case is non-trivial when it evaluates the full enumerated set (cells/index/centring/reduce) '
         'or a string/cell whose random numbers are drawn inside the class; distinct = distinct fingerprint of the '
         'concrete inputs.')
 ASSUMPTIONS = ['cells are right-handed with volume >= 10% of a*b*c (condition number < ~1e2)',
@@ -34,6 +43,11 @@ ASSUMPTIONS = ['cells are right-handed with volume >= 10% of a*b*c (condition nu
                'i.e. far above atol; parameters are generic (lengths differ by >= 15 %, angles by >= 3 deg from each other and from 90/120)',
                "the trigonal settings supported by the code are 't1' (obverse) and 't2' (reverse); a bare 't' is refused and counted",
                'index strings follow the documented grammar: no leading blank, space-delimited integers',
+               'presentations hold every index exactly: signed types over their symmetric range [-max, max] (the most negative value only in '
+               'the dedicated reduce_indices clause), unsigned types non-negative rows, float types integers below their mantissa; '
+               'magnitudes are capped so that every exact result fits int64 and a double (plane normal |index| <= 2000, others <= 2e9)',
+               'a narrow float element type (float16/float32) bounds the accuracy of vector3to4 (division by 3) by its own round-off; '
+               'reduce_indices refuses float element types (documented: "An array of ints"), counted as refusals',
                'oracle shares numpy/LAPACK with the code under test']
 
 # thorough: 16 shards x 3 seeds; ~35 CPU-min in total, so a generous per-worker watchdog for a loaded machine
@@ -43,6 +57,11 @@ MILLER_PY = 'atomman/tools/miller.py'
 CELL_KINDS = ['cubic', 'tetragonal', 'orthorhombic', 'hexagonal', 'rhombohedral', 'monoclinic', 'triclinic', 'tilted',
               'rotated', 'hexagonal-rotated', 'triclinic', 'tilted']
 FAMILY_OF_PRED = ['cubic', 'hexagonal', 'tetragonal', 'rhombohedral', 'orthorhombic', 'monoclinic', 'triclinic']
+# cell length scales: the plane normal and the direction are scale-free statements (no absolute threshold is stated),
+# so the whole range from a cell written in metres (1e-10) to one in 1e-4 angstrom units (1e4) is in the quantifier
+LENGTH_SCALES = (1.0, 1e-10, 1e4, 1e-8, 1e2, 1e-6, 1e-2, 1e-4)
+# every case repeats its cell shape at two further scales (pairs rotate; the two ends of the range in every pair of cases)
+SWEEP_SCALES = ((1e-10, 1e4), (1e-8, 1e2), (1e-10, 1e-6), (1e4, 1e-4))
 KNOWN_MN = 'reduce_indices:leading-shape-MN'      # mechanism key of the (M,N,3) defect of reduce_indices
 
 TRUTH = {}      # id(box) -> ground-truth vects the harness built it from
@@ -103,6 +122,11 @@ def judge_vectors(rec, got, idx, v, where):
     exp = M.cart_uvtw(x, v) if x.shape[-1] == 4 else M.cart_uvw(x, v)
     L = np.linalg.norm(v, axis=1).max()
     k = 'uvtw' if x.shape[-1] == 4 else 'uvw'
+    dt = np.asarray(idx).dtype            # input class of the mechanism key: narrow / unsigned integer element types
+    if dt.kind == 'u':
+        k += ':unsigned'
+    elif dt.kind == 'i' and dt.itemsize < 8:
+        k += ':signed-narrow'
     rec.close(1e-10 * L * (1 + np.abs(x).max()), got, exp,
               '[uvw] is u a + v b + w c ([uvtw] the sum over the four hexagonal axes), origin not added',
               f'vector:cartesian:{k}', indices=x.reshape(-1, x.shape[-1])[:3], vects=v, where=where)
@@ -195,7 +219,7 @@ def group_cells(ctx, am, miller, TRI, m):
         rng = ctx.rng
         kind = CELL_KINDS[i % 12]
         oc = cells.ORIGINS[(i // 12) % 3]
-        scale = cells.SCALES[(i // 36) % 3]
+        scale = LENGTH_SCALES[(i // 12) % 8]
         cell = make_cell(rng, kind, oc, scale)
         v, o, L = cell['vects'], cell['origin'], np.linalg.norm(cell['vects'], axis=1).max()
         rec.case(('cell', kind, oc, scale), nontrivial=True, fp=fingerprint(v, o))
@@ -208,6 +232,7 @@ def group_cells(ctx, am, miller, TRI, m):
             continue
         TRUTH[id(box)] = v
         rec.count('cellkind:' + kind)
+        rec.count(f'length-scale:{scale:g}')
         n_exp, d_exp = M.plane_normal(TRI, v)
         c_exp = M.cart_uvw(TRI, v)
         normals_N = None
@@ -257,6 +282,30 @@ def group_cells(ctx, am, miller, TRI, m):
             rec.count('zone:pairs-in-zone', n_in)
             rec.count('zone:pairs-off-zone', n_off)
             del signed, work, dots
+        # --- the same cell shape at every other length scale: unit normals unchanged, directions scale with the cell
+        if normals_N is not None:
+            for s2 in SWEEP_SCALES[(i // 12) % 4]:
+                if s2 == scale:
+                    continue
+                r = s2 / scale
+                v2, o2 = v * r, o * r
+                with ctx.guard('plane normal / direction in the same cell at another length scale', f'length-scale:{s2:g}:exception'):
+                    box2 = am.Box(vects=v2, origin=o2)
+                    TRUTH[id(box2)] = v2
+                    try:
+                        got2 = np.asarray(box2.plane_crystal_to_cartesian(TRI))          # also judged by the monitor against v2
+                        gotv = np.asarray(miller.vector_crystal_to_cartesian(TRI, box2))
+                    finally:
+                        TRUTH.pop(id(box2), None)
+                    e2 = np.abs(got2 - normals_N).max(axis=1) if got2.shape == normals_N.shape else np.array([np.inf])
+                    bad = ~(e2 <= 1e-10)
+                    rec.check(not bad.any(), 'the unit plane normal does not depend on the length scale of the cell (1e-10 .. 1e4)',
+                              f'plane:length-scale:{s2:g}', indices=TRI[bad][:3] if bad.shape == (ntri,) else None,
+                              got=got2[bad][:3] if bad.shape == (ntri,) else None, at_case_scale=normals_N[bad][:3] if bad.shape == (ntri,) else None,
+                              vects=v2, case_scale=scale)
+                    rec.close(1e-10 * L * r * (1 + m), gotv, c_exp * r, '[uvw] scales with the cell', f'vector:length-scale:{s2:g}', vects=v2)
+                    rec.count('length-scale-sweep:cells')
+                    rec.count(f'length-scale-sweep:{s2:g}')
         # --- directions, all three leading shapes
         for s, shape in enumerate(GI.SHAPES):
             typ = GI.TYPES[(i + s + 1) % 3]
@@ -561,6 +610,235 @@ def group_families(ctx, am, cs):
         rec.count('monitor:families-judged')
 
 
+# ----------------------------------------------------------------------------- presentations (dtype / container / layout / magnitude)
+PRESENT_FUNCS = ('plane3to4', 'plane4to3', 'vector3to4', 'vector4to3', 'p2c', 'c2p', 'reduce3', 'reduce4',
+                 'vector-cart3', 'vector-cart4', 'plane-cart3', 'plane-cart4')
+FOUR_INDEX = ('plane4to3', 'vector4to3', 'reduce4', 'vector-cart4', 'plane-cart4')
+CL_SAME = ('the result does not depend on how the same integers are handed over (element type, container, leading shape, '
+           'memory layout): it equals the result of the int64 call')
+EPS = float(np.finfo(float).eps)
+
+
+def _flat(outs, k):
+    return np.concatenate([np.asarray(o, float).reshape(-1, k) for o in outs], axis=0)
+
+
+def present_calls(ctx, f, base, ref_full, name, shape, layout, key, n_single, real_output=False, accept=()):
+    """Call f on the presentation ``name``/``layout`` of the pieces of ``base`` in the leading shape asked for.
+    ref_full: the rows f returned for the whole of ``base`` as one C-contiguous (N,k) int64 array.
+    -> (rows int64, results, int64-call results, layout label) flattened over the pieces, or None."""
+    rec = ctx.rec
+    sel, gots = [], []
+    lab = 'n/a'
+    for piece, rows in GP.pieces(base, shape, ctx.rng, n_single):
+        if real_output:
+            arg, lab = piece, 'as-returned'
+        else:
+            arg, lab = GP.present(piece, name, layout)
+        got = None
+        g = ctx.guard('every presentation of an integer index array is accepted', key, accept=accept)
+        with g:
+            got = f(arg)
+        if g.exc is not None and accept and isinstance(g.exc, tuple(accept)):
+            rec.count('present:documented-refusal:' + type(g.exc).__name__)
+            return None
+        if got is None:
+            return None
+        got = np.asarray(got)
+        if got.shape[:-1] != piece.shape[:-1] or got.shape[-1] != ref_full.shape[-1]:
+            rec.fail(CL_SAME + ' (leading shape of the result = leading shape of the input)', key, got_shape=got.shape,
+                     in_shape=piece.shape, presentation=name, layout=lab)
+            return None
+        sel.append(rows)
+        gots.append(got)
+    sel = np.concatenate(sel)
+    return np.asarray(base)[sel], _flat(gots, ref_full.shape[-1]), ref_full[sel], lab
+
+
+def group_present(ctx, am, miller, TRI, m):
+    """Every index-taking function x element type / container x leading shape x memory layout x magnitude."""
+    rec = ctx.rec
+    NP = len(GP.NAMES)
+    n = ctx.pick(2, 6) * 3 * NP
+    n_single = ctx.pick(16, 40)
+    p2c, c2p = miller.vector_primitive_to_conventional, miller.vector_conventional_to_primitive
+    for i in ctx.cases('present', n):
+        rng = ctx.rng
+        name = GP.NAMES[i % NP]
+        mag = GP.MAGS[(i // NP) % 3]
+        rnd = i // (3 * NP)
+        dcl = GP.dclass(name)
+        scale = LENGTH_SCALES[(i + 3 * rnd) % 8]
+        kind = CELL_KINDS[(i + 5 * rnd) % 12]
+        oc = cells.ORIGINS[(i + rnd) % 3]
+        cell = make_cell(rng, kind, oc, scale)
+        hcell = make_cell(rng, ('hexagonal', 'hexagonal-rotated')[(i + rnd) % 2], oc, scale)
+        box = hbox = None
+        with ctx.guard('Box can be built from right-handed vectors', 'cells:build'):
+            box = am.Box(vects=cell['vects'], origin=cell['origin'])
+            hbox = am.Box(vects=hcell['vects'], origin=hcell['origin'])
+        if box is None or hbox is None:
+            continue
+        TRUTH[id(box)], TRUTH[id(hbox)] = cell['vects'], hcell['vects']
+        # --- index sets
+        real_out = name == 'all_indices-output'
+        if real_out:
+            mm = {'bound': m, 'large': ctx.pick(7, 11), 'huge': m + 2}[mag]
+            base = None
+            with ctx.guard('all_indices', 'all_indices:exception'):
+                base = np.asarray(miller.all_indices(mm, reduce=(mag == 'huge')))
+            if base is None:
+                continue
+            if base.ndim != 2 or base.shape[1] != 3 or len(base) == 0 or base.dtype.kind not in 'iu':
+                rec.fail('all_indices returns an (N,3) integer array', 'all_indices:plain', got_shape=base.shape, dtype=str(base.dtype))
+                continue
+            lin3 = pl3 = red3 = base
+        else:
+            nl = ctx.pick(360, 1500)
+            lin3 = GP.triples(rng, name, mag, 'linear', m, nl, ctx.pick(240, 600))
+            pl3 = lin3
+            if mag == 'huge':
+                pl3 = GP.triples(rng, name, mag, 'plane', m, nl, ctx.pick(240, 600))
+            elif mag == 'large' and not ctx.quick:
+                pl3 = GP.triples(rng, name, mag, 'plane', m, None, 0)           # thorough: the whole [-11,11]^3 cube
+            red3 = GP.triples(rng, name, mag, 'reduce', m, nl, ctx.pick(240, 600)) if mag == 'huge' else lin3
+        qname = 'int64' if real_out else name
+        lin4, pl4, red4 = GP.quads(qname, lin3), GP.quads(qname, pl3), GP.quads(qname, red3)
+        rec.case(('present', name, mag), nontrivial=True, fp=fingerprint(name, mag, lin3, pl3, cell['vects']))
+        if rnd == 0 and mag != 'bound' and i % 5 == 0:
+            rec.sample(dict(presentation=name, magnitude=mag, rows_linear=len(lin3), rows_plane=len(pl3), first_plane_rows=pl3[:3],
+                            largest=int(np.abs(pl3).max()), cell_scale=scale))
+        rec.count('present:' + name)
+        rec.count(f'present-magnitude:{name}:{mag}')
+        rec.count(f'present-length-scale:{scale:g}')
+        prod = np.abs(pl3.astype(float).prod(axis=1))
+        rec.count('present:plane-rows-with-|hkl|>127', int((prod > 127).sum()))
+        rec.count('present:plane-rows-with-|hkl|>32767', int((prod > 32767).sum()))
+        rec.count('present:plane-rows-with-|hkl|>2^31', int((prod > 2.0 ** 31).sum()))
+        if name in ('int8', 'uint8', 'list-of-int8-scalars'):
+            rec.count('present:8-bit-plane-rows-with-|hkl|>127', int((prod > 127).sum()))
+        setting = M.SETTINGS[(i + rnd) % 8]
+        Lc, Lh = cell['L'], hcell['L']
+        table = {
+            'plane3to4': (miller.plane3to4, lin3, M.plane3to4, 0.0, 0.0),
+            'plane4to3': (miller.plane4to3, lin4, M.plane4to3, 0.0, 0.0),
+            'vector3to4': (miller.vector3to4, lin3, M.vector3to4, 1.0, 1e-14),
+            'vector4to3': (miller.vector4to3, lin4, M.vector4to3, 0.0, 0.0),
+            'p2c': (lambda a: p2c(a, setting), lin3, None, 0.0, 0.0),
+            'c2p': (lambda a: c2p(a, setting), lin3, None, 0.0, 0.0),
+            'reduce3': (miller.reduce_indices, red3, M.reduce_rows, 0.0, 0.0),
+            'reduce4': (miller.reduce_indices, red4, M.reduce_rows, 0.0, 0.0),
+            'vector-cart3': ((lambda a: box.vector_crystal_to_cartesian(a)) if i % 2 else (lambda a: miller.vector_crystal_to_cartesian(a, box)),
+                             lin3, None, 0.0, 0.0),
+            'vector-cart4': ((lambda a: miller.vector_crystal_to_cartesian(a, hbox)) if i % 2 else (lambda a: hbox.vector_crystal_to_cartesian(a)),
+                             lin4, None, 0.0, 0.0),
+            'plane-cart3': ((lambda a: miller.plane_crystal_to_cartesian(a, box)) if i % 2 else (lambda a: box.plane_crystal_to_cartesian(a)),
+                            pl3, None, 0.0, 0.0),
+            'plane-cart4': ((lambda a: hbox.plane_crystal_to_cartesian(a)) if i % 2 else (lambda a: miller.plane_crystal_to_cartesian(a, hbox)),
+                            pl4, None, 0.0, 0.0),
+        }
+        epsP = GP.eps_of(name)
+        for j, fname in enumerate(PRESENT_FUNCS):
+            f, base, oracle, narrow_div, otol = table[fname]
+            if len(base) == 0:
+                rec.count('present:empty-set:' + fname)
+                continue
+            key = f'present:{fname}:{dcl}:{mag}'
+            isred = fname.startswith('reduce')
+            accept = (TypeError,) if (isred and name in GP.FLOATS) else ()      # "An array of ints": float element types are refused
+            realo = real_out and fname not in FOUR_INDEX          # the array exactly as all_indices returned it (and views of it)
+            pname = 'int64' if real_out else name
+            ref_full = None
+            with ctx.guard('the int64 call succeeds', key):
+                ref_full = np.asarray(f(np.array(base, dtype=np.int64, order='C')), float)
+            if ref_full is None:
+                continue
+            if ref_full.shape[:-1] != (len(base),):
+                rec.fail(CL_SAME + ' (leading shape of the result = leading shape of the input)', key, got_shape=ref_full.shape, in_shape=base.shape)
+                continue
+            for s, shape in enumerate(GP.SHAPES):
+                layout = GP.LAYOUTS[(i + j + s + rnd) % len(GP.LAYOUTS)]
+                r = present_calls(ctx, f, base, ref_full, pname, shape, layout, key, n_single, real_output=realo, accept=accept)
+                if r is None:
+                    continue
+                rows, got, ref, lab = r
+                big = 1.0 + float(np.abs(rows).max())
+                # bound on |got - ref|: a few double round-offs of a result of size ~3*big (times the cell for Cartesian
+                # results); for a narrow float element type the division by 3 of vector3to4 is done in that type
+                if fname.startswith('plane-cart'):
+                    tol = 1e-12
+                elif fname.startswith('vector-cart'):
+                    tol = 16 * EPS * big * (Lh if fname.endswith('4') else Lc)
+                elif fname in ('p2c', 'c2p', 'vector3to4'):
+                    tol = 16 * EPS * big + 4 * narrow_div * epsP * big
+                else:
+                    tol = 0.0
+                err = np.abs(got - ref).max(axis=1)
+                bad = ~(err <= tol)
+                rec.check(not bad.any(), CL_SAME, key, function=fname, presentation=name, layout=lab, shape=shape, magnitude=mag,
+                          indices=rows[bad][:3], got=got[bad][:3], int64_call=ref[bad][:3], tol=tol,
+                          setting=setting if fname in ('p2c', 'c2p') else None)
+                if oracle is not None:
+                    exp = np.asarray(oracle(rows), float).reshape(got.shape)
+                    e2 = np.abs(got - exp).max(axis=1)
+                    b2 = ~(e2 <= otol * big + 4 * narrow_div * epsP * big)
+                    rec.check(not b2.any(), ('reduce_indices' if isred else fname) + ': the value the notation defines, for every presentation of the indices',
+                              key, function=fname, presentation=name, layout=lab, shape=shape, magnitude=mag, indices=rows[b2][:3],
+                              got=got[b2][:3], expected=exp[b2][:3])
+                rec.count(f'present:{fname}:{name}')
+                rec.count('present-layout:' + lab)
+                rec.count(f'present-layout:{fname}:{lab}')
+                rec.count('present-shape:' + shape)
+                rec.count('present:rows-compared', len(rows))
+                if fname == 'plane-cart3':
+                    rec.count(f'present:plane-cart3:{dcl}:{lab}')
+                    if mag == 'large' and shape in ('N', 'MN'):
+                        rec.count('present:plane-normal-large-rows', len(rows))
+                        if not ctx.quick and not real_out:
+                            rec.count(f'exhaustive:present-plane-normal[-11,11]^3:{name}:{shape}', len(rows))
+            # centring: the two maps stay mutually inverse whatever the presentation
+            if fname == 'p2c':
+                with ctx.guard('centring round trip on a presented array', key):
+                    arg, lab = (lin3, 'as-returned') if real_out else GP.present(lin3, name, GP.LAYOUTS[(i + rnd) % len(GP.LAYOUTS)])
+                    back = np.asarray(c2p(p2c(arg, setting), setting), float)
+                    big = 1.0 + float(np.abs(lin3).max())
+                    rec.close(64 * EPS * big, back, lin3, 'conventional->primitive inverts primitive->conventional for every presentation',
+                              key, setting=setting, presentation=name, layout=lab)
+        # --- reduce at the most negative value of a signed element type (its gcd, 2**(bits-1), is not representable in that type)
+        dt = GP.PRES[name][0]
+        if dt is not None and np.dtype(dt).kind == 'i' and mag == 'huge':
+            lo = int(np.iinfo(dt).min)
+            rowsmin = np.array([[lo, 0, 0], [0, lo, lo], [lo, lo, lo], [lo, 0, lo], [lo, lo // 2, 0], [0, lo, lo // 4]], dtype=dt)
+            expmin = np.array([[-1, 0, 0], [0, -1, -1], [-1, -1, -1], [-1, 0, -1], [-2, -1, 0], [0, -4, -1]])
+            with ctx.guard('reduce_indices at the most negative representable index', 'reduce:dtype-minimum'):
+                gotmin = np.asarray(miller.reduce_indices(rowsmin))
+                rec.close(0.0, gotmin, expmin, 'reduce_indices returns the coprime indices of the same direction (rows holding the most '
+                          'negative value of the element type)', 'reduce:dtype-minimum', element_type=name, rows=rowsmin)
+            rec.count('present:reduce-dtype-minimum')
+        # --- sum-rule guard: a quadruple whose h+k+i is a whole wrap-around of the element type is not a valid four-index set
+        if dt is not None and np.dtype(dt).kind in 'iu' and np.dtype(dt).itemsize < 8 and mag == 'huge':
+            wq = GP.wrapping_quads(rng, name)
+            guards = (('plane4to3', miller.plane4to3), ('vector4to3', miller.vector4to3),
+                      ('vector-cart4', lambda a: miller.vector_crystal_to_cartesian(a, hbox)),
+                      ('plane-cart4', lambda a: miller.plane_crystal_to_cartesian(a, hbox)))
+            for fname, f in guards:
+                for arg in (wq.astype(dt), wq[0].astype(dt), GP.lay(wq.astype(dt), 'transposed')[0]):
+                    refused = False
+                    try:
+                        f(arg)
+                    except ValueError:
+                        refused = True
+                    except Exception as e:
+                        rec.fail('a quadruple violating the sum rule is refused with ValueError', f'{fname}:guard:other-exception', exception=e)
+                        refused = True
+                    rec.check(refused, 'a quadruple violating h+k+i=0 / u+v+t=0 by a whole wrap-around of its element type is refused',
+                              f'{fname}:guard:wrapping-sum:{dcl}', element_type=name, rows=np.asarray(arg).reshape(-1, 4)[:2])
+                    rec.count('present:wrapping-sum-rule-refusals', int(refused))
+        TRUTH.pop(id(box), None)
+        TRUTH.pop(id(hbox), None)
+
+
+
 # ----------------------------------------------------------------------------- run
 def run(ctx):
     import atomman as am
@@ -582,6 +860,7 @@ def run(ctx):
     group_reduce(ctx, miller, TRI, m)
     group_strings(ctx, miller)
     group_families(ctx, am, cs)
+    group_present(ctx, am, miller, TRI, m)
 
     # reach: the seven zero-pattern branches of plane_crystal_to_cartesian
     rec.count('reach:plane-branches-located', 1 if len(blines) == 7 else 0)
@@ -626,3 +905,40 @@ def run(ctx):
     for fam in cells.FAMILIES:
         rec.floor('family:' + fam, 6)
     rec.floor('monitor:families-judged', 60)
+    # presentations: every function x element type / container, every magnitude, every memory layout, every leading shape
+    for fname in PRESENT_FUNCS:
+        for name in GP.NAMES:
+            if fname.startswith('reduce') and name in GP.FLOATS:
+                continue                                   # refused by the code ("An array of ints"), counted as refusal
+            rec.floor(f'present:{fname}:{name}', 15)
+        for lay in GP.LAYOUTS:
+            rec.floor(f'present-layout:{fname}:{lay}', 10)
+    for name in GP.NAMES:
+        for mag in GP.MAGS:
+            rec.floor(f'present-magnitude:{name}:{mag}', 2)
+    for dcl in ('int64', 'float64', 'signed-narrow', 'unsigned', 'float-narrow'):
+        for lay in GP.LAYOUTS:
+            rec.floor(f'present:plane-cart3:{dcl}:{lay}', 2)
+    rec.floor('present:plane-cart3:all_indices:as-returned', 6)
+    for shape in GP.SHAPES:
+        rec.floor('present-shape:' + shape, 1000)
+    rec.floor('present:8-bit-plane-rows-with-|hkl|>127', 500)
+    rec.floor('present:plane-rows-with-|hkl|>127', 5000)
+    rec.floor('present:plane-rows-with-|hkl|>32767', 1000)
+    rec.floor('present:plane-rows-with-|hkl|>2^31', 100)
+    rec.floor('present:plane-normal-large-rows', 10000)
+    rec.floor('present:wrapping-sum-rule-refusals', 100)
+    rec.floor('present:reduce-dtype-minimum', 4)
+    if not ctx.quick:
+        for name in GP.NAMES:
+            if name == 'all_indices-output':
+                continue
+            full = 12 ** 3 - 1 if name in GP.UNSIGNED else 23 ** 3 - 1
+            rec.floor(f'exhaustive:present-plane-normal[-11,11]^3:{name}:N', full)
+            rec.floor(f'exhaustive:present-plane-normal[-11,11]^3:{name}:MN', full)
+    for sc in LENGTH_SCALES:
+        rec.floor(f'length-scale:{sc:g}', 12)
+        rec.floor(f'present-length-scale:{sc:g}', 6)
+    rec.floor('length-scale-sweep:1e-10', 12)
+    rec.floor('length-scale-sweep:10000', 12)
+    rec.floor('length-scale-sweep:cells', 100)
